@@ -1158,6 +1158,10 @@ class Sequence:
         returns a tuple of (dmax, seqDeltaMax)
         """
 
+        # If dmax is known but its permutant was never recorded, redo the search
+        if self.dmax != -1 and returnSeqDeltaMax and self.seqDeltaMax is None:
+            self.dmax = -1
+
         # If this has been computed already, then return it
         if self.dmax != -1 and not returnSeqDeltaMax:
           return self.dmax
